@@ -63,8 +63,7 @@ class AggSystem(evx.System):
     settings['MAX_AGGREGATION_INTERVALS'] = self.m
     settings['WRITE_BACK_FREQUENCY'] = p.get('wbf')
     settings['FORWARD_ALL'] = p.get('forward_all', True)
-    settings['CACHE_METRIC_NAMES_MAX'] = 0
-    settings['CACHE_METRIC_NAMES_TTL'] = 0
+    settings['CACHE_METRIC_NAMES_MAX'], settings['CACHE_METRIC_NAMES_TTL'] = p.get('name_cache', (0, 0))
     settings['LOG_AGGREGATOR_MISSES'] = False
     from twisted.internet.task import Clock, LoopingCall
     import carbon.aggregator.buffers as buffers
@@ -328,6 +327,8 @@ def stream_configs(ctx):
   cfgs.append(dict({'rules': [('agg.one', 'x.a', 'sum'), ('agg.all', 'x.*', 'sum')], 'm': 2, 'forward_all': False}, **two))
   cfgs.append(dict({'rules': [('x.a', 'x.a', 'sum'), ('agg.all', 'x.*', 'sum')], 'm': 1, 'forward_all': True}, **two))
   cfgs.append({'rules': [('x.a', 'x.a', 'sum')], 'm': 1, 'forward_all': False, 'wbf': 5})
+  # a sum/count pair over the same inputs, with the per-rule name memo switched on
+  cfgs.append(dict({'rules': [('agg.sum', 'x.*', 'sum'), ('agg.cnt', 'x.*', 'count')], 'm': 1, 'forward_all': True, 'name_cache': (100, 0)}, **two))
   # sub-second timestamps (the interval is the whole-second floor aligned to the frequency)
   cfgs.append({'rules': [('agg.<p>', '<p>.*', 'sum')], 'm': 2, 'start': 1003, 'inputs': ('x.a',), 'kinds': ('now', 'fracprev', 'fraclate')})
   # a received series that is merely NAMED like an aggregate some other series feeds (it matches no rule itself):
